@@ -1,64 +1,100 @@
-# C09 — JitAllocator bookkeeping (inductive step)
+# C09 — JitAllocator bookkeeping: inductive step. One public operation from an arbitrary state satisfying the representation
+# invariant I(block) (jit_env.h), I and the post-conditions asserted afterwards; bit-vector helpers against bit-level models.
+X = dict(repo_units=[], extra_c=['cbmc_mem.c'])   # every unit #includes asmjit/core/jitallocator.cpp through jit_env.h
 UNITS = [
-    # the harness #includes asmjit/core/jitallocator.cpp (file-local classes); VirtMem and pthread_mutex_* are stubbed in jit_env.h
-    Unit('block1', harness=['h_block1.cpp'], repo_units=[], extra_c=['cbmc_mem.c']),
-    Unit('world2', harness=['h_world2.cpp'], repo_units=[], extra_c=['cbmc_mem.c'], defines=['JENV_POOLS=3', 'JENV_NEW_BLOCK_WORDS=8']),
-    Unit('fill', harness=['h_fill.cpp'], repo_units=[], extra_c=['cbmc_mem.c'], defines=['JENV_CBMC_ARENA_BYTES=256']),
-    Unit('reset', harness=['h_reset.cpp'], repo_units=[], extra_c=['cbmc_mem.c'], defines=['JENV_CBMC_ARENA_BYTES=4096']),
-    Unit('bits', harness=['h_bits.cpp'], repo_units=[], extra_c=['cbmc_mem.c']),
-    Unit('gen', harness=['h_gen.cpp'], repo_units=[], extra_c=['cbmc_mem.c']),
+    Unit('block1', harness=['h_block1.cpp'], **X),
+    Unit('world2', harness=['h_world2.cpp'], defines=['JENV_POOLS=3', 'JENV_NEW_BLOCK_WORDS=8'], **X),
+    Unit('fill', harness=['h_fill.cpp'], defines=['JENV_CBMC_ARENA_BYTES=256'], **X),
+    Unit('reset', harness=['h_reset.cpp'], **X),
+    Unit('bits', harness=['h_bits.cpp'], **X),
+    Unit('gen', harness=['h_gen.cpp'], **X),
+    Unit('tree', harness=['h_tree.cpp'], repo_units=[]),
 ]
-B1 = '1 block of 64 granules in any state satisfying I(block), any window/flags; '
+MEM = 'memset.0:10,memset.1:9,memcpy.0:10,memcpy.1:9'          # loops of cbmc_mem.c (stable names)
+FP = '_ZN6asmjit5v1_21L25JitAllocator_fill_patternEPvjm'         # noinline in jitallocator.cpp: its loop ids are stable
+FILL = MEM + ',%s.0:50,%s.1:50,%s.2:50' % (FP, FP, FP)
+B1 = '1 block of 64 granules in any state satisfying I(block), any window/flags/placement; '
 B2 = '1 block of 128 granules (two bit words) in any state satisfying I(block); '
-MEM = 'memset.0:10,memset.1:9,memcpy.0:10,memcpy.1:9'
-FILL = MEM + ',_ZN6asmjit5v1_21L25JitAllocator_fill_patternEPvjm.0:50,_ZN6asmjit5v1_21L25JitAllocator_fill_patternEPvjm.1:50,_ZN6asmjit5v1_21L25JitAllocator_fill_patternEPvjm.2:50'
+T = ('thorough',)
+def H(unit, fn, bounds, unwind=5, mem=2, **kw):
+    kw.setdefault('unwindset', MEM)
+    return Harness(unit, fn, unwind=unwind, bounds=bounds, mem_gb=mem, **kw)
 HARNESSES = [
-    Harness('block1', 'h_alloc_w1', unwind=4, bounds=B1 + 'every size; at most 2 free runs', unwindset=MEM, mem_gb=6, timeout=900),
-    Harness('block1', 'h_alloc_w2', unwind=4, bounds=B2 + 'every size; at most 2 free runs', unwindset=MEM, mem_gb=8, timeout=1800, tiers=('thorough',)),
-    Harness('block1', 'h_release_w1', unwind=5, bounds=B1 + 'every live span', unwindset=MEM, mem_gb=4),
-    Harness('block1', 'h_release_w2', unwind=5, bounds=B2 + 'every live span', unwindset=MEM, mem_gb=4),
-    Harness('block1', 'h_release_imm_w1', unwind=5, bounds=B1 + 'immediate release', unwindset=MEM, mem_gb=4),
-    Harness('block1', 'h_release_kf_C09A', unwind=5, bounds=B1 + 'region of C09A', unwindset=MEM, mem_gb=4, known='C09A'),
-    Harness('block1', 'h_release_kf_C09B', unwind=5, bounds=B1 + 'region of C09B', unwindset=MEM, mem_gb=4, known='C09B'),
-    Harness('block1', 'h_shrink_w1', unwind=5, bounds=B1 + 'every granule as span start, every new size', unwindset=MEM, mem_gb=4),
-    Harness('block1', 'h_shrink_w2', unwind=5, bounds=B2 + 'every granule as span start, every new size', unwindset=MEM, mem_gb=4),
-    Harness('block1', 'h_shrink_kf_C09A', unwind=5, bounds=B1 + 'region of C09A', unwindset=MEM, mem_gb=4, known='C09A'),
-    Harness('block1', 'h_shrink_kf_C09F', unwind=5, bounds=B1 + 'region of C09F', unwindset=MEM, mem_gb=4, known='C09F'),
-    Harness('block1', 'h_query_w1', unwind=5, bounds=B1 + 'every pointer', unwindset=MEM, mem_gb=4),
-    Harness('block1', 'h_query_w2', unwind=5, bounds=B2 + 'every pointer, dual mapping', unwindset=MEM, mem_gb=4),
-    Harness('block1', 'h_reject', unwind=5, bounds=B1, unwindset=MEM, mem_gb=4),
-    Harness('block1', 'h_not_initialized', unwind=5, bounds='', unwindset=MEM, mem_gb=4),
-    Harness('block1', 'h_statistics', unwind=5, bounds=B2, unwindset=MEM, mem_gb=4),
-    Harness('block1', 'h_initialized_kf_C09C', unwind=5, bounds='', unwindset=MEM, mem_gb=4, known='C09C'),
-    Harness('world2', 'h_first_block', unwind=10, unwindset=MEM, bounds='empty allocator, 4 boundary sizes, default options, OS refusing or not', mem_gb=8),
-    Harness('world2', 'h_first_block_b', unwind=10, unwindset=MEM, bounds='same, 4 more sizes', mem_gb=8, tiers=('thorough',)),
-    Harness('world2', 'h_first_block_nopad_dual', unwind=10, unwindset=MEM, bounds='same, no padding + dual mapping, granularity 128', mem_gb=8, tiers=('thorough',)),
-    Harness('world2', 'h_first_block_large_refused', unwind=10, unwindset=MEM, bounds='same, large pages refused by the OS (fallback to regular pages)', mem_gb=8, tiers=('thorough',)),
-    Harness('world2', 'h_first_block_large_align', unwind=10, unwindset=MEM, bounds='same, large pages + align + no padding, granularity 256', mem_gb=8, tiers=('thorough',)),
-    Harness('world2', 'h_first_block_multipool', unwind=10, unwindset=MEM, bounds='same, 3 pools, sizes selecting each pool', mem_gb=8, tiers=('thorough',)),
-    Harness('world2', 'h_block_size_policy', unwind=6, unwindset=MEM, bounds='every request size, base 64 KiB..8 MiB, last block base*2^k', mem_gb=6),
-    Harness('world2', 'h_second_block', unwind=10, unwindset=MEM, bounds='pool with one full block of 64 granules, 4 boundary sizes', mem_gb=6),
-    Harness('world2', 'h_release_2b', unwind=6, unwindset=MEM, bounds='2 blocks of 64 granules in any states of I, any list order / tree shape / cursor', mem_gb=6),
-    Harness('world2', 'h_release_2b_imm', unwind=6, unwindset=MEM, bounds='same, immediate release', mem_gb=6),
-    Harness('fill', 'h_fill_release', unwind=6, unwindset=FILL, bounds='1 block of 64 granules, any state of I, spans of 1..2 granules inside the first 4 granules, any pattern, any byte of those 256', mem_gb=6),
-    Harness('fill', 'h_fill_release_dual', unwind=6, unwindset=FILL, bounds='same, dual mapping', mem_gb=6, tiers=('thorough',)),
-    Harness('fill', 'h_fill_shrink', unwind=6, unwindset=FILL, bounds='same, shrink keeping 1..2 granules and freeing 0..2', mem_gb=6),
-    Harness('fill', 'h_write', unwind=6, unwindset=MEM.replace('memcpy.0:10', 'memcpy.0:18'), bounds='span of 1..2 granules inside the first 4 granules, any offset, any size, any source byte', mem_gb=6),
-    Harness('fill', 'h_write_fn', unwind=6, unwindset=FILL, bounds='span of 1..3 granules inside the first 4 granules, truncated to 1..256 bytes by the write function', mem_gb=6),
-    Harness('reset', 'h_reset_hard', unwind=6, unwindset=MEM, bounds='1..2 blocks of 64 granules in any states of I, any list order / tree shape', mem_gb=6),
-    Harness('reset', 'h_reset_kf_C09G', unwind=6, unwindset=MEM, bounds='same', mem_gb=6, known='C09G'),
-    Harness('reset', 'h_reset_soft', unwind=6, unwindset=MEM, bounds='same', mem_gb=6),
-    Harness('reset', 'h_reset_soft_then_alloc', unwind=6, unwindset=MEM, bounds='same, followed by one alloc of 1..256 bytes', mem_gb=6, timeout=1500, tiers=('thorough',)),
-    Harness('reset', 'h_reset_soft_kf_C09E', unwind=6, unwindset=MEM, bounds='same, region of C09E', mem_gb=6, known='C09E'),
-    Harness('bits', 'h_bv_fill_clear', unwind=5, unwindset=MEM, bounds='3 words, every index/count', mem_gb=4),
-    Harness('bits', 'h_bv_bit', unwind=5, unwindset=MEM, bounds='3 words, every index', mem_gb=4),
-    Harness('bits', 'h_bv_index_of', unwind=5, unwindset=MEM, bounds='3 words, every start', mem_gb=4),
-    Harness('bits', 'h_range_iter_free', unwind=5, unwindset=MEM, bounds='2 words, any iterator state, any end, any hint', mem_gb=4),
-    Harness('bits', 'h_range_iter_used', unwind=5, unwindset=MEM, bounds='2 words, any iterator state, any end, any hint', mem_gb=4),
-    Harness('bits', 'h_range_iter_init', unwind=5, unwindset=MEM, bounds='2 words, every start < end', mem_gb=4),
-    Harness('gen', 'h_gen_complete_w1', unwind=5, unwindset=MEM, bounds='every state of I, 64 granules', mem_gb=4),
-    Harness('gen', 'h_gen_complete_w2', unwind=5, unwindset=MEM, bounds='every state of I, 128 granules', mem_gb=4),
+    # ---- one block, one operation
+    H('block1', 'h_alloc_w1', B1 + 'every request size; at most 2 free runs (search loop bound); OS refuses new mappings', unwind=4, mem=4, timeout=900),
+    H('block1', 'h_alloc_w2', B2 + 'every request size; at most 2 free runs; OS refuses new mappings', unwind=4, mem=8, timeout=2400, tiers=T),
+    H('block1', 'h_release_w1', B1 + 'every live span'),
+    H('block1', 'h_release_w2', B2 + 'every live span', mem=4, tiers=T),
+    H('block1', 'h_release_imm_w1', B1 + 'every live span, immediate release (block deleted when emptied)'),
+    H('block1', 'h_release_kf_C09A', B1 + 'region of known finding C09A', known='C09A'),
+    H('block1', 'h_release_kf_C09B', B1 + 'region of known finding C09B', known='C09B'),
+    H('block1', 'h_shrink_w1', B1 + 'every granule as span start (live, interior, free), every new size'),
+    H('block1', 'h_shrink_w2', B2 + 'every granule as span start, every new size', mem=4, timeout=1200, tiers=T),
+    H('block1', 'h_shrink_kf_C09A', B1 + 'region of known finding C09A', known='C09A'),
+    H('block1', 'h_shrink_kf_C09F', B1 + 'region of known finding C09F (new size > 2^37)', known='C09F'),
+    H('block1', 'h_query_w1', B1 + 'every pointer inside and outside the block'),
+    H('block1', 'h_query_w2', B2 + 'every pointer, dual mapping'),
+    H('block1', 'h_reject', B1 + 'null / foreign pointers, null span, span without block'),
+    H('block1', 'h_not_initialized', 'allocator whose construction failed: every entry'),
+    H('block1', 'h_statistics', B2),
+    H('block1', 'h_initialized_kf_C09C', 'any allocator', known='C09C'),
+    # ---- blocks appear / disappear
+    H('world2', 'h_first_block', 'empty allocator, 4 boundary sizes, default options, OS refusing or not', unwind=10, mem=4),
+    H('world2', 'h_first_block_b', 'same, 4 more sizes', unwind=10, mem=6, tiers=T),
+    H('world2', 'h_first_block_nopad_dual', 'same, no padding + dual mapping, granularity 128', unwind=10, mem=6, tiers=T),
+    H('world2', 'h_first_block_large_refused', 'same, large pages refused by the OS (fallback to regular pages), no padding, granularity 256', unwind=10, mem=6, tiers=T),
+    H('world2', 'h_first_block_large_align', 'same, large pages granted, align option, no padding, granularity 256', unwind=10, mem=6, tiers=T),
+    H('world2', 'h_first_block_multipool', 'same, 3 pools, sizes selecting each pool', unwind=10, mem=6, tiers=T),
+    H('world2', 'h_block_size_policy', 'every request size, base block 64 KiB..8 MiB, last block base*2^k, padding on/off', unwind=6),
+    H('world2', 'h_second_block', 'pool with one full block of 64 granules, 4 boundary sizes, either address order', unwind=10),
+    H('world2', 'h_release_2b', '2 blocks of 64 granules in any states of I, any list order / tree shape / cursor', unwind=6),
+    H('world2', 'h_release_2b_imm', 'same, immediate release', unwind=6),
+    # ---- JIT memory contents
+    H('fill', 'h_fill_shrink', B1 + 'shrink keeping 1..2 granules and freeing 0..2 inside the first 4 granules, any pattern, any byte of those 256', unwind=6, unwindset=FILL),
+    H('fill', 'h_write_fn', B1 + 'span of 1..3 granules inside the first 4, truncated to 1..256 bytes by the write function, fill on', unwind=6, unwindset=FILL),
+    H('fill', 'h_fill_release', B1 + 'release of a span of 1..2 granules inside the first 4, any pattern, any byte', unwind=6, unwindset=FILL, mem=6, timeout=2400, tiers=T),
+    H('fill', 'h_fill_release_dual', 'same, dual mapping', unwind=6, unwindset=FILL, mem=6, timeout=2400, tiers=T),
+    H('fill', 'h_write', 'write(span, offset, src, size): span of 1..2 granules inside the first 4, any offset, any size, any source byte', unwind=6, unwindset=MEM.replace('memcpy.0:10', 'memcpy.0:18'), mem=6, timeout=2400, tiers=T),
+    # ---- reset
+    H('reset', 'h_reset_hard', '1..2 blocks of 64 granules in any states of I, any list order / tree shape', unwind=6),
+    H('reset', 'h_reset_kf_C09G', 'same, region of known finding C09G', unwind=6, known='C09G'),
+    H('reset', 'h_reset_soft', 'same, soft reset', unwind=6),
+    H('reset', 'h_reset_soft_then_alloc', 'same, followed by one alloc of 1..256 bytes', unwind=6, mem=4, timeout=1500, tiers=T),
+    H('reset', 'h_reset_soft_kf_C09E', 'same, region of known finding C09E', unwind=6, known='C09E'),
+    # ---- helpers the allocator relies on
+    H('tree', 'h_tree_real', 'real arenatree.h: 1..2 nodes, either insertion order by address, any lookup address, any node removed', mem=4, unwindset=None, tiers=T),
+    H('bits', 'h_bv_fill_clear', '3 words, every index/count'),
+    H('bits', 'h_bv_bit', '3 words, every index, get/set/or/xor'),
+    H('bits', 'h_bv_index_of', '3 words, every start, both values'),
+    H('bits', 'h_range_iter_free', 'BitVectorRangeIterator<.,0>: 2 words, ANY iterator state, any end, any hint (one next_range step)'),
+    H('bits', 'h_range_iter_used', 'BitVectorRangeIterator<.,1>: 2 words, ANY iterator state, any end, any hint'),
+    H('bits', 'h_range_iter_init', '2 words, every start < end'),
+    H('gen', 'h_gen_complete_w1', 'every state of I, 64 granules: the pre-state generator reaches it'),
+    H('gen', 'h_gen_complete_w2', 'every state of I, 128 granules'),
 ]
-EXPLANATION = 'x'
-OUTSIDE = []
-ASSUMPTIONS = []
+EXPLANATION = ('bounded symbolic execution (CBMC) of the real jitallocator.cpp, one operation from an arbitrary pre-state satisfying the representation invariant '
+               'I(block) c1..c10 (jit_env.h); I is re-established and the post-conditions (span non-null, granule aligned, >= requested, inside the block, disjoint from '
+               'every previously used granule; released/shrunk granules free and inside the search window; a new block only when no free run fits; statistics = recomputation; '
+               'fill pattern; foreign pointers refused without change) are asserted. Histories are covered inductively, not enumerated. '
+               'c4 (area_used = popcount) is carried in delta form.')
+OUTSIDE = [
+    'blocks are scaled down to 64 / 128 granules (real minimum: 64 KiB = 256..1024 granules); area sizes are multiples of 64 granules as in every real configuration',
+    'alloc inside an existing block: pre-states with at most 2 free runs (the search loop runs once per free run that is too small; 6 runs: 25 M clauses, 10 min symex); '
+    'the iterator itself is checked from ANY state in unit bits, so fragmentation beyond 2 runs is covered for next_range, not for the loop around it',
+    'new-block paths use concrete boundary request sizes (a symbolic size makes the length/position of the new bit vectors symbolic: 42 M variables); the sizing policy is checked for every size separately',
+    'dropped (no verdict within 8 GB): first block with large pages AND initial padding; three-node real red-black tree; fill pattern written by a soft reset (wipeOutBlock, see C09D in the report); initial fill of a fresh block',
+    'JIT memory is real only in unit fill, and only the first 256 bytes of the block; release/shrink/write there are limited to spans inside the first 4 granules',
+    'release(rx) with an interior or stale (already released) pointer: the code has no used-bit check in release (unlike shrink/query) - treated as a precondition, only null and foreign pointers are claimed to be refused',
+    'query(rx) with an interior pointer returns the suffix [granule of rx, end of span), not the whole span (asserted as such)',
+    'real mmap / dual mapping aliasing / large pages / instruction-cache flushes (OS); two views are two buffers here',
+    'block growth beyond the doubling / request-sized policy; histories of 10^5 operations (inductive argument instead)',
+]
+ASSUMPTIONS = [
+    'VirtMem::alloc / alloc_dual_mapping / release / release_dual_mapping / protect_jit_memory / flush_instruction_cache / info / large_page_size / hardened_runtime_info are harness stubs (jit_env.h): arena slots, recorded calls, RW/RX nesting asserted',
+    'pthread_mutex_lock / unlock are a depth counter with nesting assertions (the real Lock / LockGuard run on top)',
+    'ArenaTree<JitAllocatorBlock> is replaced by tree_model.h (typed links, no balancing, same interface; the block\'s own range comparison operators stay real); the real arenatree.h is exercised in unit tree with 1..2 nodes',
+    '::free(block) / ::malloc(block object) are redirected (jenv_free / jenv_malloc): pre-state blocks are typed static objects whose bit vectors live in separate arrays; a freed block is recorded and poisoned',
+    'memset / memcpy / memmove are plain loops under CBMC (cbmc_mem.c): the built-in models drop writes with symbolic length at a symbolic destination (observed)',
+    'block flags padding / dual mapped / large pages are not tied to the allocator options in the one-block harnesses (superset of the reachable states)',
+    'release / shrink / write(fn) preconditions: the span passed in was returned by alloc/query of this allocator (rx at a granule start of the block named by span._block)',
+]
